@@ -169,7 +169,7 @@ def S12(inp, n):
     cl['trimmed_entries_are_the_old_ones'] = And([so.has_entry(p.log, e[1], e[2]) for e in q.log])
     cl['indices_untouched'] = And(Eq(q.commit, p.commit), Eq(q.applied, p.applied))
     # load on another node
-    b, trb, consb = _mk(inp, 'z', ('a', 'b'), clock, dyn)
+    b, trb, consb = _mk(inp, 'z', ('a', 'b', 'q'), clock, dyn)      # q is not in the snapshot's member set
     get(b, 'serializer')._Serializer__inMemorySerializedData = image
     b.x, b.items = -77, ['stale']
     consb[0].append(-77, _doApply=True)
@@ -183,8 +183,10 @@ def S12(inp, n):
                                                                      so.has_entry(p.log, qb.log[0][1], qb.log[0][2]), so.has_entry(p.log, qb.log[1][1], qb.log[1][2]))
     if dyn:
         cl['member_set_restored'] = set(x.id for x in b.otherNodes) == {'a', 'b', 'c'}
+        cl['transport_registry_follows_snapshot'] = sorted((k, nd.id) for k, nd in trb.registry) == [('add', 'c'), ('drop', 'q')]
+        cl['tables_follow_snapshot'] = Node('q') not in get(b, 'raftNextIndex') and Node('c') in get(b, 'raftNextIndex')
     else:
-        cl['member_set_untouched_without_dynamic_membership'] = set(x.id for x in b.otherNodes) == {'a', 'b'}
+        cl['member_set_untouched_without_dynamic_membership'] = set(x.id for x in b.otherNodes) == {'a', 'b', 'q'}
     cl['no_internal_state_leaks'] = Eq(get(b, 'raftCurrentTerm'), 0) and get(b, 'raftState') == F
     return Res(cl, nontrivial=True, obs=lambda: dict(dyn=dyn, bx=show(b.x), items=show(b.items), log=show(qb.log), applied=show(qb.applied),
                                                      members=sorted(x.id for x in b.otherNodes), exc=show(exc2)))
@@ -352,3 +354,48 @@ class _OsNoFork:
     @staticmethod
     def fork():
         raise OSError('fork not modelled')
+
+
+class _OsWait:
+    """os stand-in for the fork path of checkSerializing: waitpid answers as told"""
+    answer = None
+
+    def __getattr__(self, name):
+        import os as _os
+        return getattr(_os, name)
+
+    def waitpid(self, pid, flags):
+        a = _OsWait.answer
+        if a == 'oserror':
+            raise OSError('no child')
+        return a
+
+
+@obligation('S6', props=('C09',), quick=[dict()], stubs=_STUBS + ('os.waitpid answers (0,0) / (pid,status) / OSError as told; the child itself is not modelled',),
+            bounds='wait status from {0, 1<<8, 255<<8, 9 (killed), 0x7f}, still running, or waitpid failing (enumerated); the leader log of 4 entries is trimmed or not')
+def S6(inp):
+    """fork mode: compaction is reported successful - and the log trimmed - only when the dump child exited with status 0;
+    a child that failed or was killed leaves the log untouched; a running child keeps the state SERIALIZING."""
+    install_memory()
+    now = inp.real('now', 0)
+    o, tr = so.make('a', ['b'], so.Clock(now), inp, fullDumpFile='dumpfile', useFork=True)
+    ser = get(o, 'serializer')
+    so.set_log(o, [(so.NOOP, i, 0) for i in (1, 2, 3, 4)])
+    put(o, 'raftCommitIndex', 4); put(o, 'raftLastApplied', 4)
+    ser._Serializer__pid = 4242
+    ser._Serializer__currentID = 3
+    opts = [('running', (0, 0)), ('ok', (4242, 0)), ('exit1', (4242, 1 << 8)), ('exit255', (4242, 255 << 8)), ('killed', (4242, 9)), ('stopped', (4242, 0x7f)), ('oserror', 'oserror')]
+    name, ans = opts[inp.choice('wait', len(opts))]
+    fake = _OsWait()
+    _OsWait.answer = ans
+    real_os = ser_mod.os
+    ser_mod.os = fake
+    try:
+        _, exc = guard(getattr(o, so.P + 'tryLogCompaction'))
+    finally:
+        ser_mod.os = real_os
+    log = so.log_of(o)
+    cl = {'no_exception': exc is None}
+    cl['trimmed_iff_child_succeeded'] = (len(log) == 2 and log[0][1] == 3) if name == 'ok' else (len(log) == 4)
+    cl['still_serializing_iff_running'] = (ser._Serializer__pid == 4242) == (name == 'running')
+    return Res(cl, nontrivial=name != 'running', obs=lambda: dict(wait=name, log=[e[1] for e in log], pid=ser._Serializer__pid))
